@@ -527,7 +527,7 @@ func Child(c *run.Ctx, name string) {
 					}
 				}
 			}
-			c.Violation("goroutine-leak/"+ep+"/"+leakFrame(lg), fmt.Sprintf("%s: %v after the request ended (%s) %d kind(s) of goroutines started for it are still alive and blocked (and %d driver.Rows still open), e.g. %s; request %s; database script %s; client %s",
+			c.Violation("goroutine-leak/"+ep+"/"+leakFrame(lg)+"/"+rowsLeakClass(cs), fmt.Sprintf("%s: %v after the request ended (%s) %d kind(s) of goroutines started for it are still alive and blocked (and %d driver.Rows still open), e.g. %s; request %s; database script %s; client %s",
 				cs.Gen.Endpoint, bound, outcome.answer, len(lg), lr, clip(lg[0], 300), clip(cs.Gen.Req.String(), 300), cs.DB.class(), cs.Client),
 				map[string]any{"case_index": gi, "case": json.RawMessage(cb), "leaked": lg, "open_rows": clipAll(rows, 300), "goroutines": clip(dump, 6000)})
 		case lr > 0:
@@ -615,22 +615,30 @@ func sigEndpoint(e string) string {
 	return e
 }
 
-// leakFrame picks the innermost qryn frame of a leaked goroutine signature ("creator :: f1 < f2").
+// leakFrame names the kind of goroutine that was left behind: the entry function (outermost
+// qryn frame) of a leaked goroutine, preferring goroutines the request started over the
+// handler goroutine itself; among several kinds the alphabetically first.
 func leakFrame(sigs []string) string {
-	// prefer a goroutine the request started over the handler goroutine itself
-	sig := sigs[0]
-	for _, x := range sigs {
-		if !strings.HasPrefix(x, "net/http.") {
-			sig = x
-			break
+	var own, handler []string
+	for _, sig := range sigs {
+		parts := strings.SplitN(sig, " :: ", 2)
+		entry := "created-by:" + parts[0]
+		if len(parts) == 2 && parts[1] != "" {
+			fs := strings.Split(parts[1], " < ")
+			entry = fs[len(fs)-1]
+		}
+		if strings.HasPrefix(parts[0], "net/http.") {
+			handler = append(handler, entry)
+		} else {
+			own = append(own, entry)
 		}
 	}
-	parts := strings.SplitN(sig, " :: ", 2)
-	if len(parts) == 2 && parts[1] != "" {
-		fs := strings.Split(parts[1], " < ")
-		return fs[0]
+	sort.Strings(own)
+	sort.Strings(handler)
+	if len(own) > 0 {
+		return own[0]
 	}
-	return "created-by:" + parts[0]
+	return handler[0]
 }
 
 type outcome struct {
